@@ -68,6 +68,69 @@ def replay_family(fam, tier, variant, workdir):
     return scen, nscen, runs, traces
 
 
+L2_PLAN = {
+    # property: [(family, take every n-th scenario quick/thorough, mode)]
+    "C03": [("inplace", 40, 8, "plain"), ("scansub", 60, 10, "plain")],
+    "C02": [("seeds", 60, 10, "plain"), ("mixed", 20, 4, "plain")],
+    "C13": [("inplace", 80, 12, "plain"), ("mixed", 30, 6, "plain")],
+    "C06": [("inplace", 70, 11, "plain"), ("mixed", 25, 5, "plain"), ("seeds", 120, 20, "plain")],
+    "C05": [("crash", 12, 2, "faults")],
+}
+L2_CAT = {"W0": "C13", "W1": "C13", "W2": "C13", "W3": "C13", "W4": "C13", "FETCH": "C06", "CRASH": "C05", "C16": "C16"}
+
+
+def run_l2(prop, tier, out, workdir):
+    """The real `bita clone` process on natural-chunk files arranged by TLC-generated layouts (lib/clone_l2.py), judged by CloneL2Trace.tla."""
+    import sys
+    build_cli()
+    total = 0
+    samples = []
+    counts = {}
+    tv = {"events": 0, "scenarios_ok": 0, "verdicts": 0, "states": 0}
+    for fam, ev_q, ev_t, mode in L2_PLAN[prop]:
+        cfgname = FAMILIES[fam][tier]
+        scen = gen_cached("CloneGen", "CloneGen_%s.cfg" % cfgname, "clone_" + cfgname)
+        every = ev_q if tier == "quick" else ev_t
+        shards = 12
+        procs, traces = [], []
+        for i in range(shards):
+            tr = os.path.join(workdir, "l2_%s_%d.ndjson" % (fam, i))
+            traces.append(tr)
+            cmd = ["timeout", "3000", sys.executable, os.path.join(VERIF, "lib", "clone_l2.py"), "--scen", scen, "--out", tr, "--shard", str(i), "--shards", str(shards),
+                   "--bita", BITA, "--dir", os.path.join(workdir, "l2fs"), "--seed", str(seed()), "--every", str(every), "--mode", mode, "--fi", os.path.join(WORK, "fi.so"),
+                   "--max-faults", "5" if tier == "quick" else "12"]
+            procs.append(subprocess.Popen(cmd, stdout=subprocess.PIPE, stderr=subprocess.PIPE, env=dict(os.environ, RUST_BACKTRACE="0")))
+        runs = 0
+        for p in procs:
+            o, e = p.communicate()
+            if p.returncode != 0:
+                raise ToolError("clone_l2 failed (%d): %s" % (p.returncode, e.decode()[-2000:]))
+            runs += json.loads(o.decode().strip().splitlines()[-1])["runs"]
+        total += runs
+        verdicts, summary = tlc_validate("CloneL2Trace", "CloneL2Trace.cfg", traces)
+        for k in tv:
+            tv[k] += summary[k]
+        log("L2 family %s (%s, every %d): %d process runs, %d events validated, %d accepted, %d verdicts" % (fam, mode, every, runs, summary["events"], summary["scenarios_ok"], summary["verdicts"]))
+        if not samples:
+            for t in traces:
+                if os.path.getsize(t):
+                    samples.append({"layer": "L2", "family": fam, "trace": slice_at_line(t, 2)[:25]})
+                    break
+        for v in verdicts:
+            cat = v["rule"].split(":")[0].split(" ")[0]
+            p = L2_CAT.get(cat)
+            if p is None:
+                p = "C05" if v.get("restart") else FAMILIES[fam]["owner"]
+            counts[p + " L2 " + v["rule"][:60]] = counts.get(p + " L2 " + v["rule"][:60], 0) + 1
+            if p != prop:
+                continue
+            evs = slice_at_line(v["trace"], v["line"])
+            sc = evs[0] if evs else {}
+            out.violation("L2 %s|%s|%s" % (v["rule"], fam, sc.get("kind")), "L2 %s (family %s, kind %s, transport %s, layout %s, fault %s)" % (v["rule"], fam, sc.get("kind"), sc.get("transport"), json.dumps(sc.get("layout")), sc.get("fault")),
+                          {"kind": "clone_l2", "family": fam, "mode": mode, "scenario_n": sc.get("n"), "layout": sc.get("layout"), "verdict": {k: v[k] for k in ("rule", "scenario", "line")}, "events": evs[:120]})
+    return total, tv, counts, samples
+
+
 def run_clone_check(prop, tier):
     out = Outcome(prop, tier, "model_checking")
     build_harness()
@@ -133,10 +196,14 @@ def run_clone_check(prop, tier):
                            "verdict": {k: v[k] for k in ("rule", "scenario", "line", "run")}, "events": evs[:200]})
         if summary["verdicts"] > len(verdicts):
             out.notes.append("family %s: %d verdicts in total, %d reported in detail (cap per shard)" % (fam, summary["verdicts"], len(verdicts)))
+    l2_runs, l2_tv, l2_counts, l2_samples = run_l2(prop, tier, out, workdir)
+    verdict_counts.update(l2_counts)
+    samples += l2_samples
     shutil.rmtree(workdir, ignore_errors=True)
     out.coverage = {
         "states": states, "transitions": trans,
-        "traces_validated_against_impl": total_runs,
+        "traces_validated_against_impl": total_runs + l2_runs,
+        "l2_process_runs": l2_runs, "l2_trace_events_validated": l2_tv["events"],
         "trace_events_validated": tv["events"], "scenarios_accepted": tv["scenarios_ok"], "verdicts_all_properties": verdict_counts,
         "model_checking_runs": mc_runs,
         "exhaustive": True,
@@ -145,7 +212,8 @@ def run_clone_check(prop, tier):
     }
     out.assumptions = ["A1 ideal strong hash: distinct chunk contents have distinct (truncated) Blake2 hashes",
                        "L1 binds Archive::try_init/build_source_index/chunk_stream, ChunkIndex, CloneOutput; the CLI orchestration (clone_cmd.rs) is bound by the L2 checks",
-                       "the output scan is given to the code as the scenario's scan set (D4); the real chunker's scan is exercised by the L2 checks"]
+                       "the output scan is given to the L1 code as the scenario's scan set (D4); at L2 the real bita process scans real files built from natural chunks (D7) and what its chunker finds is computed with bita's own chunker",
+                       "L2 block devices are regular files behind hook H1"]
     out.finish()
 
 
